@@ -129,6 +129,8 @@ func TestC03Mix(t *testing.T) {
 		var wg sync.WaitGroup
 		start := make(chan struct{})
 		ctx := context.Background()
+		deadCtx, deadCancel := context.WithCancel(ctx)
+		deadCancel()
 		for g := 0; g < G; g++ {
 			opCounts[g] = map[string]int{}
 			seed := rng.Uint64()
@@ -142,9 +144,12 @@ func TestC03Mix(t *testing.T) {
 					op := r.IntN(40)
 					name := ""
 					switch op {
-					case 0, 1, 2, 3:
+					case 0, 1, 2:
 						name = "Publish"
 						ebu.Publish(bus, evA{N: k})
+					case 3:
+						name = "PublishContext(cancelled)"
+						ebu.PublishContext(bus, deadCtx, evA{N: k}) // reaches the Async+Sequential handler's queue while it is busy
 					case 4, 5:
 						name = "PublishContext"
 						ebu.PublishContext(bus, ctx, evB{N: k})
